@@ -160,6 +160,7 @@ Theorem C07_source_call_sites :
     [("RecvManifestMultiStream", "MkdirAll"); ("RecvManifestMultiStream", "MkdirAll");
      ("RecvManifestMultiStream", "MkdirAll"); ("RecvManifestMultiStream", "OpenFile");
      ("RecvManifestMultiStream", "Remove"); ("RecvManifestMultiStream", "Remove");
+     ("RecvManifestMultiStream", "Remove"); ("RecvManifestMultiStream", "Remove");
      ("RecvManifestMultiStreamLegacy", "MkdirAll"); ("RecvManifestMultiStreamLegacy", "MkdirAll");
      ("RecvManifestMultiStreamLegacy", "MkdirAll"); ("RecvManifestMultiStreamLegacy", "MkdirAll");
      ("openFile", "OpenFile")] /\
